@@ -129,6 +129,22 @@ pub fn run<C: NatCtx>(v: &mut Env<C>) {
             Err(_) => Out::Err,
         });
         v.h.check(!acc, || format!("mutated proof accepted on {} N={}", tok, nn));
+        // responses are not hashed: a changed chain response must be caught by ITS chain equation,
+        // at the first, the middle and the last position
+        for pos in [0, nn / 2, nn - 1] {
+            let mut m = pp.clone();
+            m.s_hats[pos] = (&m.s_hats[pos] + 1u32) % &q;
+            let mpf = m.to::<C>();
+            let mut acc = true;
+            v.case("check_proof", vec![vnats(&gensv), n(&pkv), m.val(), vcts(&es), vcts(&eps), b(&label)], || match sh.check_proof(&mpf, &es, &eps, &label) {
+                Ok(r) => {
+                    acc = r;
+                    Out::Ok(Val::Bool(r))
+                }
+                Err(_) => Out::Err,
+            });
+            v.h.check(!acc, || format!("proof with a changed chain response at position {} accepted on {} N={}", pos, tok, nn));
+        }
         let mut m = pp.clone();
         m.t_hats[nn - 1] = (&m.t_hats[nn - 1] * &g) % &p;
         let mpf = m.to::<C>();
